@@ -248,7 +248,7 @@ func c09AppendedElems(call ssa.CallInstruction) (elems []ssa.Value, whole ssa.Va
 
 // c09ElemOf: v is an element loaded from (an alias of) slice.
 func c09ElemOf(v ssa.Value, slice map[ssa.Value]bool) bool {
-	rs := Roots(v)
+	rs := Roots(c09CellOrValue(v))
 	if len(rs) == 0 {
 		return false
 	}
@@ -299,6 +299,9 @@ func c09FindHelpers(c *Ctx, rule string) *c09Helpers {
 				h.cascade = append(h.cascade, g)
 			}
 		}
+		if len(h.cascade) == 0 && h.deleteOne == h.del {
+			h.cascade = []*ssa.Function{h.del} // the delete step is inlined into the operation
+		}
 	}
 	for _, g := range c09ReachableInPkg(h.gc, 3) {
 		AllInstrs(g, func(in ssa.Instruction) {
@@ -317,7 +320,7 @@ func c09FindHelpers(c *Ctx, rule string) *c09Helpers {
 
 func c09R3(c *Ctx) {
 	const R3 = "C09.R3.cascade-guards"
-	c.Expect(R3, 11)
+	c.Expect(R3, 9)
 	h := c09FindHelpers(c, R3)
 	if h == nil {
 		return
@@ -327,14 +330,12 @@ func c09R3(c *Ctx) {
 		c.LostAnchor(R3, dn+": helper that removes one node (calls graph.Memory.Remove and Storage.Delete) and its caller")
 		return
 	}
-	if h.isTagged == nil {
-		c.LostAnchor(R3, dn+": isTagged helper (bool function calling resolver.Memory.TagSet)")
-	}
 	autoGCEdges := func(fn *ssa.Function, _ c09Vals) []Edge {
 		t, _ := BoolTests(fn, c08StoreFieldLoads(fn, h.store, "AutoGC"))
 		return t
 	}
 	nRef, nEnq := 0, 0
+	usesInline := false
 	for _, host := range c09ReachableInPkg(h.del, 3) {
 		delCalls := CallsTo(host, fnFullName(h.deleteOne))
 		// (a) referrers
@@ -356,9 +357,18 @@ func c09R3(c *Ctx) {
 			same := false
 			headO, _ := c09Origins(c.P, head, 2, h.del)
 			for _, ch := range h.cascade {
+				var deleted []ssa.Value
 				for _, dc := range CallsTo(ch, fnFullName(h.deleteOne)) {
+					deleted = append(deleted, dc.Common().Args[2])
+				}
+				if ch == h.deleteOne {
+					for _, rc := range CallsTo(ch, c09nRemove) {
+						deleted = append(deleted, rc.Common().Args[1])
+					}
+				}
+				for _, dv := range deleted {
 					same = true
-					dO, _ := c09Origins(c.P, dc.Common().Args[2], 2, h.del)
+					dO, _ := c09Origins(c.P, dv, 2, h.del)
 					for _, a := range headO {
 						hit := false
 						for _, b := range dO {
@@ -385,15 +395,32 @@ func c09R3(c *Ctx) {
 				}
 			}
 		}
-		// (b) danglings
+		// (b) danglings: the result of the delete step, or of graph.Remove where that step is inlined
+		var dangSources []ssa.Value
 		for _, dc := range delCalls {
-			dang := ResultOf(dc, 0)
-			if dang == nil {
-				continue
+			if dang := ResultOf(dc, 0); dang != nil {
+				dangSources = append(dangSources, dang)
 			}
+		}
+		for _, rc := range CallsTo(host, c09nRemove) {
+			if v := rc.Value(); v != nil {
+				dangSources = append(dangSources, v)
+			}
+		}
+		for _, dang := range dangSources {
 			dAliases := Aliases(dang)
 			for _, ap := range CallsTo(host, "builtin:append") {
 				elems, whole := c09AppendedElems(ap)
+				// append(queue, slices.DeleteFunc(danglings, isTagged)...): keeps exactly the untagged ones
+				if df, isCall := whole.(*ssa.Call); whole != nil && isCall && CalleeName(df) == "slices.DeleteFunc" && len(df.Call.Args) == 2 && dAliases[df.Call.Args[0]] {
+					nEnq++
+					usesInline = true
+					ok := c09GuardedUp(c.P, ap.(ssa.Instruction), nil, autoGCEdges, 2)
+					c.Check(R3, dn+"|dangling-only-under-AutoGC", ap.Pos(), ok, ifelse(ok, "a dangling node is enqueued only on the s.AutoGC edge", "dangling nodes are deleted although AutoGC is off"))
+					ok = c09PredIs(df.Call.Args[1], h.isTagged)
+					c.Check(R3, dn+"|dangling-only-if-untagged", ap.Pos(), ok, ifelse(ok, "the tagged dangling nodes are filtered out with slices.DeleteFunc(danglings, isTagged) before they are enqueued", "the dangling nodes are filtered with a predicate that is not the isTagged test: a tagged manifest can be deleted"))
+					continue
+				}
 				if whole != nil && dAliases[whole] {
 					c.Violation(R3, dn+"|dangling-enqueued-unfiltered", ap.Pos(), "the dangling nodes returned by the delete are enqueued as a whole, without the !isTagged filter: tagged manifests would be deleted")
 					nEnq++
@@ -410,6 +437,11 @@ func c09R3(c *Ctx) {
 					if h.isTagged != nil {
 						_, notTagged, _ = CallTests(host, fnFullName(h.isTagged), func(x *ssa.Call) bool { return c09SameKey(x.Call.Args[len(x.Call.Args)-1], e) })
 					}
+					// the test inlined: a comparison of len(TagSet(e)) discounting e's own digest
+					if _, inl := c09TaggedTests(host, e); len(inl) > 0 {
+						notTagged = append(notTagged, inl...)
+						usesInline = true
+					}
 					ok = c09Guarded(ap.(ssa.Instruction), notTagged)
 					c.Check(R3, dn+"|dangling-only-if-untagged", ap.Pos(), ok, ifelse(ok, "a dangling node d is enqueued only on the !isTagged(d) edge", "a dangling node is enqueued for deletion without the !isTagged(d) test of that same node: a tagged manifest can be deleted"))
 				}
@@ -421,6 +453,9 @@ func c09R3(c *Ctx) {
 	}
 	if nEnq == 0 {
 		c.LostAnchor(R3, dn+": enqueue of the dangling nodes returned by the delete helper")
+	}
+	if h.isTagged == nil && !usesInline {
+		c.LostAnchor(R3, dn+": isTagged test (bool function calling resolver.Memory.TagSet, or the same comparison inlined)")
 	}
 	c09R3Delete(c, R3, h)
 	c09R3Remove(c, R3)
@@ -776,6 +811,10 @@ func c09R3IsTagged(c *Ctx, R3 string, h *c09Helpers) {
 			return
 		}
 		for _, alt := range alts {
+			if alt.neg {
+				ok, why = false, "the result is the negation of the tagged test"
+				continue
+			}
 			var onSelf, onOther bool
 			if alt.via != nil {
 				term := alt.via.From.Instrs[len(alt.via.From.Instrs)-1]
@@ -803,33 +842,40 @@ func c09R3IsTagged(c *Ctx, R3 string, h *c09Helpers) {
 	c.Check(R3, key, f.Pos(), ok, ifelse(ok, "tagged iff the tag set holds a reference other than the descriptor's own digest", why))
 }
 
-// c09LenAlt: the compared value is equivalent to len(set) >= thr when control
-// arrived over phi edge via (nil: unconditionally).
+// c09LenAlt: the compared value is equivalent to len(set) >= thr (neg: to its
+// negation) when control arrived over phi edge via (nil: unconditionally).
 type c09LenAlt struct {
 	thr int64
 	via *Edge
+	neg bool
 }
 
-// c09LenCompare: v is `E OP k` with E = len(set) + constant, possibly a phi of
-// such expressions (`n := len(s); if c { n-- }; return n > 0`).
+// c09LenCompare: v is `L OP R` where one side is len(set) plus/minus constants
+// and the other a constant, either side possibly a phi of such expressions
+// chosen by an earlier branch (`n := len(s); if c { n-- }; return n > 0`,
+// `self := 0; if c { self = 1 }; if len(s) > self`).  len(set) is known to be
+// >= 0 (and >= 1 on the side where the set contains the tested element).
 func c09LenCompare(v ssa.Value, set map[ssa.Value]bool) ([]c09LenAlt, bool) {
 	bo, ok := v.(*ssa.BinOp)
 	if !ok {
 		return nil, false
 	}
 	type lin struct {
-		off int64
-		via *Edge
+		coef, off int64
+		via       *Edge
 	}
 	var linear func(x ssa.Value, depth int) ([]lin, bool)
 	linear = func(x ssa.Value, depth int) ([]lin, bool) {
 		if depth > 4 {
 			return nil, false
 		}
+		if k, isC := constInt(x); isC {
+			return []lin{{0, k, nil}}, true
+		}
 		switch u := x.(type) {
 		case *ssa.Call:
 			if CalleeName(u) == "builtin:len" && set[u.Call.Args[0]] {
-				return []lin{{0, nil}}, true
+				return []lin{{1, 0, nil}}, true
 			}
 		case *ssa.BinOp:
 			if k, isC := constInt(u.Y); isC && (u.Op == token.ADD || u.Op == token.SUB) {
@@ -866,44 +912,168 @@ func c09LenCompare(v ssa.Value, set map[ssa.Value]bool) ([]c09LenAlt, bool) {
 		}
 		return nil, false
 	}
-	k, isC := constInt(bo.Y)
 	ls, okL := linear(bo.X, 0)
-	op := bo.Op
-	if !isC || !okL {
-		// constant on the left: k OP E
-		k, isC = constInt(bo.X)
-		ls, okL = linear(bo.Y, 0)
-		if !isC || !okL {
-			return nil, false
-		}
-		switch op {
-		case token.LSS:
-			op = token.GTR
-		case token.LEQ:
-			op = token.GEQ
-		case token.NEQ:
-		default:
-			return nil, false
-		}
+	rs, okR := linear(bo.Y, 0)
+	if !okL || !okR {
+		return nil, false
 	}
 	var out []c09LenAlt
 	for _, l := range ls {
-		// len + off OP k
-		switch op {
-		case token.GTR:
-			out = append(out, c09LenAlt{k - l.off + 1, l.via})
-		case token.GEQ:
-			out = append(out, c09LenAlt{k - l.off, l.via})
-		case token.NEQ:
-			if k-l.off != 0 {
+		for _, r := range rs {
+			if l.via != nil && r.via != nil && *l.via != *r.via {
 				return nil, false
 			}
-			out = append(out, c09LenAlt{1, l.via})
-		default:
-			return nil, false
+			via := l.via
+			if via == nil {
+				via = r.via
+			}
+			op := bo.Op
+			coef, off := l.coef-r.coef, l.off-r.off // coef*len + off OP 0
+			if coef == -1 {
+				coef, off = 1, -off
+				switch op {
+				case token.LSS:
+					op = token.GTR
+				case token.LEQ:
+					op = token.GEQ
+				case token.GTR:
+					op = token.LSS
+				case token.GEQ:
+					op = token.LEQ
+				}
+			}
+			if coef != 1 {
+				return nil, false
+			}
+			switch op { // len + off OP 0
+			case token.GTR:
+				out = append(out, c09LenAlt{1 - off, via, false})
+			case token.GEQ:
+				out = append(out, c09LenAlt{-off, via, false})
+			case token.LSS:
+				out = append(out, c09LenAlt{-off, via, true})
+			case token.LEQ:
+				out = append(out, c09LenAlt{1 - off, via, true})
+			case token.NEQ: // len + off != 0, with len + off >= 0 where the shape is used
+				out = append(out, c09LenAlt{1 - off, via, false})
+			case token.EQL:
+				out = append(out, c09LenAlt{1 - off, via, true})
+			default:
+				return nil, false
+			}
 		}
 	}
-	return out, true
+	return out, len(out) > 0
+}
+
+// c09TaggedTests: the branches of fn that decide "node e has a tag other than
+// its own digest" inline: a comparison of len(TagSet(e)) (minus one where the
+// set contains e's digest) — returns the edges taken when e is tagged /
+// untagged.
+func c09TaggedTests(fn *ssa.Function, e ssa.Value) (tagged, untagged []Edge) {
+	for _, ts := range CallsTo(fn, c09nTagSet) {
+		a := ts.Common().Args
+		if !c09SameKey(a[len(a)-1], e) {
+			continue
+		}
+		set := Aliases(ts.Value())
+		desc := c09DescObjOf(a[len(a)-1])
+		selfT, selfF, _ := CallTests(fn, "(~/internal/container/set.Set[T]).Contains", func(x *ssa.Call) bool {
+			return set[x.Call.Args[0]] && c09DigestString(desc, x.Call.Args[1])
+		})
+		AllInstrs(fn, func(in ssa.Instruction) {
+			if lk, ok := in.(*ssa.Lookup); ok && lk.CommaOk && set[lk.X] && c09DigestString(desc, lk.Index) {
+				for _, r := range *lk.Referrers() {
+					if ex, ok := r.(*ssa.Extract); ok && ex.Index == 1 {
+						te, fe := BoolTests(fn, Aliases(ex))
+						selfT, selfF = append(selfT, te...), append(selfF, fe...)
+					}
+				}
+			}
+		})
+		if len(selfT) == 0 {
+			continue
+		}
+		inEdges := func(x Edge, es []Edge) bool {
+			for _, y := range es {
+				if x == y {
+					return true
+				}
+			}
+			return false
+		}
+		for _, i := range Ifs(fn) {
+			cond, t, f := ifEdges(i)
+			alts, ok := c09LenCompare(cond, set)
+			if !ok {
+				continue
+			}
+			good := true
+			neg := alts[0].neg
+			for _, alt := range alts {
+				var onSelf, onOther bool
+				if alt.via != nil {
+					term := alt.via.From.Instrs[len(alt.via.From.Instrs)-1]
+					onSelf = inEdges(*alt.via, selfT) || MustPass(term, newCut().Edges(selfT...))
+					onOther = inEdges(*alt.via, selfF) || MustPass(term, newCut().Edges(selfF...))
+				} else {
+					onSelf = MustPass(i, newCut().Edges(selfT...))
+					onOther = MustPass(i, newCut().Edges(selfF...))
+				}
+				if alt.neg != neg || !((onSelf && !onOther && alt.thr == 2) || (onOther && !onSelf && alt.thr == 1)) {
+					good = false
+				}
+			}
+			if !good {
+				continue
+			}
+			if neg {
+				tagged, untagged = append(tagged, f), append(untagged, t)
+			} else {
+				tagged, untagged = append(tagged, t), append(untagged, f)
+			}
+		}
+	}
+	return
+}
+
+// c09PredIs: the function value pred is (a bound-method or trivial wrapper of) target.
+func c09PredIs(pred ssa.Value, target *ssa.Function) bool {
+	if target == nil {
+		return false
+	}
+	for _, rt := range Roots(pred) {
+		var fn *ssa.Function
+		switch u := rt.(type) {
+		case *ssa.MakeClosure:
+			fn = u.Fn.(*ssa.Function)
+		case *ssa.Function:
+			fn = u
+		}
+		if fn == nil {
+			return false
+		}
+		if fn == target {
+			continue
+		}
+		// wrapper: its only in-module call is target, whose result it returns
+		n := 0
+		AllInstrs(fn, func(in ssa.Instruction) {
+			if call, ok := in.(ssa.CallInstruction); ok {
+				if g := StaticCallee(call); g != nil && inModule(g) {
+					if g == target {
+						n++
+					} else {
+						n += 100
+					}
+				}
+			}
+		})
+		if n != 1 {
+			return false
+		}
+	}
+	return true
 }
 
 // c09LenThreshold: v is `len(set) OP k`; returns t such that v == (len(set) >= t).
@@ -951,7 +1121,7 @@ func c09LenThreshold(v ssa.Value, set map[ssa.Value]bool) (int64, bool) {
 
 func c09R4(c *Ctx) {
 	const R4 = "C09.R4.sweep-guard"
-	c.Expect(R4, 10)
+	c.Expect(R4, 8)
 	h := c09FindHelpers(c, R4)
 	if h == nil {
 		return
@@ -1001,6 +1171,7 @@ func c09R4(c *Ctx) {
 	}
 	n := 0
 	knownFns := map[*ssa.Function]bool{}
+	inlineAlgs := map[string]bool{}
 	registryTest := false
 	for _, host := range h.sweepHosts {
 		for _, rm := range Calls(host, func(n string) bool { return n == "os.Remove" || n == "os.RemoveAll" || n == "(*os.Root).Remove" }) {
@@ -1095,10 +1266,48 @@ func c09R4(c *Ctx) {
 						return nil
 					}
 					var known []Edge
+					algV := strip(v["alg"])
 					for _, i := range Ifs(fn) {
-						cond, t, _ := ifEdges(i)
+						cond, t, fe := ifEdges(i)
+						// inlined: `switch alg { case digest.SHA256, …: default: continue }` / alg == "sha256" || …
+						if bo, isBo := cond.(*ssa.BinOp); isBo && (bo.Op == token.EQL || bo.Op == token.NEQ) {
+							other := ssa.Value(nil)
+							if c09ValEq(strip(bo.X), algV) {
+								other = bo.Y
+							} else if c09ValEq(strip(bo.Y), algV) {
+								other = bo.X
+							}
+							if sv, isC := constString(other); other != nil && isC {
+								inlineAlgs[sv] = true
+								if bo.Op == token.EQL {
+									known = append(known, t)
+								} else {
+									known = append(known, fe)
+								}
+							}
+							continue
+						}
+						// lookup table: `if !knownAlgorithms[alg] { continue }` on a package-level map
+						var lk *ssa.Lookup
+						switch u := cond.(type) {
+						case *ssa.Lookup:
+							lk = u
+						case *ssa.Extract:
+							if x, isLk := u.Tuple.(*ssa.Lookup); isLk {
+								lk = x
+							}
+						}
+						if lk != nil && c09ValEq(strip(lk.Index), algV) {
+							if keys, isTable := c09GlobalMapKeys(c.P, lk.X); isTable {
+								for _, k := range keys {
+									inlineAlgs[k] = true
+								}
+								known = append(known, t)
+							}
+							continue
+						}
 						call, isCall := cond.(*ssa.Call)
-						if !isCall || len(call.Call.Args) != 1 || !c09ValEq(strip(call.Call.Args[0]), strip(v["alg"])) {
+						if !isCall || len(call.Call.Args) != 1 || !c09ValEq(strip(call.Call.Args[0]), algV) {
 							continue
 						}
 						if CalleeName(call) == "(digest.Algorithm).Available" {
@@ -1119,6 +1328,9 @@ func c09R4(c *Ctx) {
 				if ok {
 					want := c09DigestAlgorithms(c.P)
 					got := map[string]bool{}
+					for a := range inlineAlgs {
+						got[a] = true
+					}
 					for g := range knownFns {
 						for _, sv := range StringConstsComparedWith(g, func(ssa.Value) bool { return true }) {
 							got[sv] = true
@@ -1144,6 +1356,80 @@ func c09R4(c *Ctx) {
 		}
 	}
 	c09R4GcIndex(c, R4, h)
+}
+
+// c09GlobalMapKeys: m is a load of a package-level map variable of the module that
+// is filled with constant string keys in the package initialiser (a lookup
+// table): returns its keys.
+func c09GlobalMapKeys(p *Prog, m ssa.Value) ([]string, bool) {
+	rs := Roots(m)
+	if len(rs) != 1 {
+		return nil, false
+	}
+	ld, ok := rs[0].(*ssa.UnOp)
+	if !ok || ld.Op != token.MUL {
+		return nil, false
+	}
+	g, ok := ld.X.(*ssa.Global)
+	if !ok || g.Pkg == nil {
+		return nil, false
+	}
+	init := g.Pkg.Func("init")
+	if init == nil {
+		return nil, false
+	}
+	keys := map[string]bool{}
+	complete := true
+	AllInstrs(init, func(in ssa.Instruction) {
+		st, ok := in.(*ssa.Store)
+		if !ok || st.Addr != ssa.Value(g) {
+			return
+		}
+		for _, rt := range Roots(st.Val) {
+			mm, isMake := rt.(*ssa.MakeMap)
+			if !isMake {
+				complete = false
+				continue
+			}
+			for _, ref := range *mm.Referrers() {
+				if mu, isMU := ref.(*ssa.MapUpdate); isMU && mu.Map == ssa.Value(mm) {
+					if sv, isC := constString(mu.Key); isC {
+						// a false value does not make the key a member
+						if cst, isConst := mu.Value.(*ssa.Const); isConst && cst.Value != nil && cst.Value.String() == "false" {
+							continue
+						}
+						keys[sv] = true
+					} else {
+						complete = false
+					}
+				}
+			}
+		}
+	})
+	// the table must not be written anywhere else
+	for f := range p.All {
+		if f == init || f.Pkg != g.Pkg {
+			continue
+		}
+		AllInstrs(f, func(in ssa.Instruction) {
+			switch u := in.(type) {
+			case *ssa.Store:
+				if u.Addr == ssa.Value(g) {
+					complete = false
+				}
+			case *ssa.MapUpdate:
+				for _, rt := range Roots(u.Map) {
+					if l2, ok := rt.(*ssa.UnOp); ok && l2.X == ssa.Value(g) {
+						complete = false
+					}
+				}
+			}
+		})
+	}
+	if !complete || len(keys) == 0 {
+		return nil, false
+	}
+	return c09SortedKeys(keys), true
 }
 
 // c09DigestAlgorithms: the values of the exported constants of type Algorithm of
@@ -1382,8 +1668,15 @@ func c09UsesStoreState(v, recv ssa.Value) bool {
 		case *ssa.FieldAddr:
 			if u.X == recv {
 				name := fieldName(u.X.Type(), u.Field)
-				if c09StoreState[name[strings.LastIndex(name, ".")+1:]] {
-					found = true
+				name = name[strings.LastIndex(name, ".")+1:]
+				if pt, ok := u.X.Type().Underlying().(*types.Pointer); ok {
+					if named, ok := pt.Elem().(*types.Named); ok {
+						for role := range c09StoreState {
+							if c09FieldRole(named, role) == name {
+								found = true
+							}
+						}
+					}
 				}
 				return
 			}
@@ -1454,7 +1747,11 @@ func c09R5(c *Ctx) {
 			continue
 		}
 		recv := f.Params[0]
-		lockPath := "P:" + recv.Name() + ".sync"
+		lockField := "sync"
+		if st := c.P.Named("content/oci", "Store"); st != nil {
+			lockField = c09FieldRole(st, "sync")
+		}
+		lockPath := "P:" + recv.Name() + "." + lockField
 		held := heldAt(f, heldSet{})
 		n, bad := 0, ""
 		var badPos token.Pos
